@@ -1,15 +1,25 @@
 pub mod common;
 pub mod soup;
+pub mod c01;
 pub mod c02;
 pub mod c03;
+pub mod c07;
+pub mod c08;
+pub mod c14;
+pub mod c15;
 pub mod c16;
 
 use crate::runner::DynProp;
 
 pub fn all() -> Vec<Box<dyn DynProp>> {
     vec![
+        Box::new(c01::C01),
         Box::new(c02::C02),
         Box::new(c03::C03::default()),
+        Box::new(c07::C07),
+        Box::new(c08::C08),
+        Box::new(c14::C14),
+        Box::new(c15::C15),
         Box::new(c16::C16::default()),
     ]
 }
